@@ -75,6 +75,9 @@ def gen_program(rng, idx):
     if fam == 4:  # non-reentrant recursion
         return [(0, [N(a, rng.random() < 0.5, True, False, [N(a, rng.random() < 0.5, rng.random() < 0.5, False)])]),
                 (rng.choice([0, 1]), [N(a, True)])]
+    if fam == 5:  # pool churn: readers of one process come and go (descriptor closed / reopened) against a foreign writer
+        seq = lambda: [N(a, True) for _ in range(rng.randint(1, 2))]  # noqa: E731
+        return [(0, seq()), (0, seq()), (1, [N(a, rng.random() < 0.3, rng.random() < 0.6)])]
     # random programs
     nthreads = rng.randint(2, 3)
     nproc = rng.randint(1, 2)
@@ -358,7 +361,7 @@ def run_case(rng, idx, tier):
     text = render(prog)
     c.sample = {"program": text}
     c.fp = fp_of(text)
-    S = 40 if tier == "quick" else 250
+    S = (150 if idx % 8 == 5 else 60 if idx % 8 <= 4 else 40) if tier == "quick" else (400 if idx % 8 == 5 else 250)
     contended = {}
     for vpid, ops in prog:
         def paths(ops, acc):
